@@ -6,6 +6,7 @@
 From Coq Require Import List ZArith NArith Bool Arith.
 Import ListNotations.
 From V Require Import Model.Align Model.SnapOps Model.SeqAssign Model.SeqUpdate Proofs.AlignValid Proofs.AlignProofs Proofs.SeqAssignProofs Proofs.SeqUpdateProofs Proofs.SnapOpsFlat.
+From V Require Import Model.TreeAssign Proofs.TreeAssignProofs.
 
 Theorem C02_seq_fix_value :
   forall (F : flags) (old : list leaf) (new : list Z),
@@ -106,6 +107,26 @@ Theorem C02_coll_categories :
   (forall m : Z, In m (kept ++ added) -> In m xs)).
 Proof. exact coll_categories. Qed.
 
+(* nested list / tuple snapshots of any depth (Model/TreeAssign.v): with fix approved the repaired text evaluates to the observed value,
+   whatever the previous content was (other type, longer, shorter, reordered, nested); without fix the value never changes *)
+Theorem C02_tree_fix_value :
+  forall (F : flags) (o : tree) (n : val), f_fix F = true -> eval_r (assign_tree F o n) = n.
+Proof. exact tree_fix_value. Qed.
+
+Theorem C02_tree_nofix_value :
+  forall (F : flags) (o : tree) (n : val), f_fix F = false -> eval_r (assign_tree F o n) = eval o.
+Proof. exact tree_nofix_value. Qed.
+
+Theorem C02_assign_fix_value :
+  forall (f : nat) (F : flags) (o : tree) (n : val),
+  depth o < f -> f_fix F = true -> eval_r (assign f F o n) = n.
+Proof. exact assign_fix_value. Qed.
+
+Theorem C02_assign_fuel_irrelevant :
+  forall (f1 f2 : nat) (F : flags) (o : tree) (n : val),
+  depth o < f1 -> depth o < f2 -> assign f1 F o n = assign f2 F o n.
+Proof. exact assign_fuel_irrelevant. Qed.
+
 Print Assumptions C02_seq_fix_value.
 Print Assumptions C02_seq_nofix_value.
 Print Assumptions C02_align_no_i_then_d.
@@ -118,3 +139,7 @@ Print Assumptions C02_seq_update_noop.
 Print Assumptions C02_seq_update_keeps_untouched_span.
 Print Assumptions C02_mm_fix_makes_all_hold.
 Print Assumptions C02_coll_categories.
+Print Assumptions C02_tree_fix_value.
+Print Assumptions C02_tree_nofix_value.
+Print Assumptions C02_assign_fix_value.
+Print Assumptions C02_assign_fuel_irrelevant.
